@@ -33,6 +33,8 @@ type Case struct {
 	MS    []M    `json:"ms,omitempty"`    // print
 	Input []byte `json:"input,omitempty"` // parse
 	Src   string `json:"src,omitempty"`   // parse: which generator produced the input
+	Sils  [][][]M `json:"sils,omitempty"` // siln: several silences, each a list of matcher sets
+	LSS   [][]KV  `json:"lss,omitempty"`  // api: the alerts of one request, in request order
 }
 
 func showM(m M) string { return fmt.Sprintf("%q %s %q", m.N, []string{"=", "!=", "=~", "!~"}[m.T], m.V) }
@@ -40,6 +42,7 @@ func showM(m M) string { return fmt.Sprintf("%q %s %q", m.N, []string{"=", "!=",
 func TestCheck(t *testing.T) {
 	env := vh.GetEnv()
 	run := vh.NewRun(env, "AM.Run.C16Run")
+	setMode("f") // alertmanager's default parser mode; the compat package itself starts in classic mode
 	var cases []Case
 	if env.Replay != "" {
 		var c Case
@@ -61,6 +64,10 @@ func TestCheck(t *testing.T) {
 			runSite(run, c)
 		case "sil":
 			runSil(run, c)
+		case "siln":
+			runSilN(run, c)
+		case "api":
+			runAPI(t, run, c)
 		case "print":
 			runPrint(run, c)
 		case "parse":
@@ -78,6 +85,9 @@ func TestCheck(t *testing.T) {
 const rule = "match: 1-3 matcher lists x label sets over small name/value/pattern alphabets, regexp oracle anchored by the harness; " +
 	"site: one matcher through NewMatcher / Matchers / route (matchers, match, match_re, JSON config) / silence compile / inhibit rule (source, target, legacy maps) / API filter / v1 JSON; " +
 	"sil: 1-3 matcher sets stored as a silence in a real silence.Silences and asked back through Query(QState(active), QMatches(labels)), Silencer.Mutes and (single list) the API filter, on label sets that lack some matched labels or carry them empty, all four operators, regexps that match the empty string; " +
+	"siln: 2-3 silences alive at once whose matchers collide on their unquoted text (value starting with ~ = !, name/value splits), checked after Set, after snapshot + restart, and in a second store after ONE Merge of the full state, by Query(QMatches) per silence and Silencer.Mutes; " +
+	"api: one GET /api/v2/alerts and one /alerts/groups request through the real handler over 2-4 alerts with differing label names, in the given and the reverse order, each alert's verdict compared; " +
+	"regexp shapes (literal, .*, .+, lit.*, .*lit, .*lit.*, ...) against values with newlines / CR / control characters / empty in every semantics case; " +
 	"print: matcher lists over an alphabet rich in quotes, backslashes, newlines, braces, commas, operators, blanks, NUL, multi-byte and invalid UTF-8 -> String() -> every parser; " +
 	"list stress: 2-4 matcher lists whose non-last values end in one or two backslashes or carry a quote / escaped quote / escaped backslash right before the separating comma, printed then parsed in every mode, plus raw lists of the same shapes (histogram classic_split_stress); " +
 	"parse: raw inputs (grammar-directed + mutated seeds) through labels.ParseMatcher(s), parse.Matcher(s), compat.Matcher(s) in classic/utf8-strict/fallback mode; " +
